@@ -415,7 +415,7 @@ where
 	let mut total: u64 = coins.iter().map(|c| c.value).sum();
 	let mut amount_with_fee = match amount_includes_fee {
 		true => amount,
-		false => amount + fee,
+		false => amount_plus_fee(amount, fee)?,
 	};
 
 	if total == 0 {
@@ -444,7 +444,7 @@ where
 		fee = tx_fee(coins.len(), num_outputs, 1);
 		amount_with_fee = match amount_includes_fee {
 			true => amount,
-			false => amount + fee,
+			false => amount_plus_fee(amount, fee)?,
 		};
 
 		// Here check if we have enough outputs for the amount including fee otherwise
@@ -475,7 +475,7 @@ where
 			total = coins.iter().map(|c| c.value).sum();
 			amount_with_fee = match amount_includes_fee {
 				true => amount,
-				false => amount + fee,
+				false => amount_plus_fee(amount, fee)?,
 			};
 		}
 	}
@@ -488,6 +488,13 @@ where
 		false => amount,
 	};
 	Ok((coins, total, new_amount, fee))
+}
+
+/// amount + fee, refusing amounts so close to the numeric limit that the sum wraps
+fn amount_plus_fee(amount: u64, fee: u64) -> Result<u64, Error> {
+	amount.checked_add(fee).ok_or_else(|| {
+		Error::GenericError("Transaction amount plus fee exceeds the numeric limit".to_owned())
+	})
 }
 
 /// Selects inputs and change for a transaction
